@@ -26,7 +26,7 @@ ASSUMPTIONS = [
 BUDGET = {"quick": 400, "thorough": 10000}
 TIME_CAP = {"quick": 75, "thorough": 1500}
 PROFILE = {"p_deriv": 0.2, "p_agg_transition": 0.1, "p_programs": 0.6, "max_steps": 10, "min_steps": 3, "extreme": 0.05, "p_function": 0.4, "p_timed": 0.4, "p_junction": 0.4, "p_output_pars": 0.5, "max_pops": 2, "p_interaction": 0.4}
-OPS = ["run", "run", "rerun", "run_noprog", "deepcopy", "pickle", "saveload", "runsim_api"]
+OPS = ["run", "run", "rerun", "run_noprog", "deepcopy", "pickle", "saveload", "runsim_api", "report"]
 
 
 @st.composite
@@ -156,6 +156,19 @@ def check(case):
                 m.process()
                 expect(i, canon.result_digest(at.Result(model=m, parset=ps, name="o")), "pickle/original")
                 copies += 1
+            elif op == "report":
+                # reporting on a finished result (programs: spending / coverage quantities; always: raw export) must not change it
+                res, _ = simcase.two_step(P, ps, pg, ins)
+                before = canon.result_digest(res)
+                if pg is not None and ins is not None:
+                    for quantity in ("eligible", "fraction", "number", "capacity"):
+                        res.get_coverage(quantity)
+                    res.get_alloc()
+                res.export_raw()
+                after = canon.result_digest(res)
+                if after != before:
+                    raise Violation(ID, "result-modified-by-reporting", "project %d: get_coverage / get_alloc / export_raw changed the arrays stored in the result" % i)
+                expect(i, after, "report")
             elif op == "saveload":
                 res, _ = simcase.two_step(P, ps, pg, ins)
                 res2 = sc.loadstr(sc.dumpstr(res))
